@@ -13,6 +13,7 @@ import (
 	"verif/harness/internal/dom"
 	"verif/harness/internal/kvh"
 	"verif/harness/internal/pbt"
+	"verif/harness/internal/via"
 )
 
 func TestMain(m *testing.M) { pbt.Main(m, "C10") }
@@ -84,9 +85,9 @@ func check(c kvh.Case) (pbt.Info, error) {
 			data, _ := json.Marshal(doc)
 			var err error
 			if box.HashBidi != nil {
-				err = box.HashBidi.FromJSON(data)
+				err = via.Auto(box.HashBidi, data)
 			} else {
-				err = box.TreeBidi.FromJSON(data)
+				err = via.Auto(box.TreeBidi, data)
 			}
 			if err != nil {
 				return fail(i, op, "FromJSON(%s) failed: %v", data, err)
@@ -427,7 +428,7 @@ func genSoak(kind string) func(t *rapid.T) kvh.Case {
 			c.Cmp, c.VCmp = dom.Nat, dom.Rev
 		}
 		keys := rapid.IntRange(2, 9).Draw(t, "keys")
-		n := rapid.IntRange(300, 900).Draw(t, "n")
+		n := rapid.IntRange(300, pbt.Size(900)).Draw(t, "n")
 		pattern := rapid.SliceOfN(rapid.IntRange(0, 9), 4, 12).Draw(t, "pattern")
 		for i := 0; i < n; i++ {
 			switch pattern[i%len(pattern)] {
